@@ -114,11 +114,69 @@ def accept_pairs(tier, rnd):
     return pairs
 
 
+def live(tier, rnd, first_id):
+    """The codec as the web server uses it: a WebSocket route on the REAL web server (SimNet): upgrade handshake, then masked client
+    frames (one or several per segment); the plugin echoes each frame.  -> (frame cases for TraceWs, accept pairs for TraceSha1)"""
+    import re
+    from harness import scen, testplugins
+    from proxy.http.websocket.frame import WebsocketFrame
+    sizes = [0, 1, 2, 125, 126, 127, 1000, 20000, 60000] if tier == 'quick' else [0, 1, 2, 3, 124, 125, 126, 127, 128, 1000, 4096, 20000, 60000, 65000]
+    cases, pairs = [], []
+    for conn in range(3 if tier == 'quick' else 10):
+        conv = scen.Conversation(args=['--enable-web-server', '--client-recvbuf-size', str(1 << 20)], flag_opts={'plugins': [testplugins.ws_echo_plugin()]})
+        c = conv.client()
+        key = base64.b64encode(bytes(rnd.randrange(256) for _ in range(16)))
+        conv.step(('c', b'GET /ws HTTP/1.1\r\nHost: w\r\nUpgrade: websocket\r\nConnection: Upgrade\r\nSec-WebSocket-Key: ' + key +
+                   b'\r\nSec-WebSocket-Version: 13\r\n\r\n'))
+        head = bytes(c.got)
+        m = re.search(rb'(?im)^sec-websocket-accept:[ \t]*([^\r\n]*)', head)
+        pairs.append({'id': first_id['pair'] + len(pairs), 'key': list(key),
+                      'accept': list(m.group(1).strip() if m and head.startswith(b'HTTP/1.1 101') else b'no 101 upgrade response: ' + head[:60])})
+        if not (m and head.startswith(b'HTTP/1.1 101')):
+            continue
+        todo = [(op, n) for n in sizes for op in ((1, 2) if n % 2 == 0 else (2,))]
+        rnd.shuffle(todo)
+        while todo and not c.eof_seen:
+            group = [todo.pop() for _ in range(min(len(todo), rnd.choice([1, 1, 2, 3])))]       # frames sharing one segment
+            seg, metas = b'', []
+            for op, n in group:
+                salt = rnd.randrange(256)
+                f = WebsocketFrame()
+                f.fin, f.opcode, f.masked, f.mask, f.data = True, op, True, bytes(rnd.randrange(256) for _ in range(4)), pat(n, salt)
+                seg += f.build()
+                metas.append((op, n, salt))
+            before = len(c.got)
+            conv.step(('c', seg))
+            echo = bytes(c.got)[before:]
+            for op, n, salt in metas:
+                case = {'id': first_id['case'] + len(cases), 'fin': True, 'rsv1': False, 'rsv2': False, 'rsv3': False, 'opcode': op, 'masked': False,
+                        'key': [], 'n': n, 'salt': salt, 'trail': [], 'exc': '', 'live': True, 'built': [], 'rest': [],
+                        'p': {'fin': False, 'rsv1': False, 'rsv2': False, 'rsv3': False, 'opcode': 0, 'masked': False, 'len': 0, 'mask': [], 'data': []}}
+                try:
+                    g = WebsocketFrame()
+                    rest = g.parse(echo) if echo else b''
+                    if not echo:
+                        raise ValueError('the server sent nothing back for this frame')
+                    used = len(echo) - len(rest)
+                    case['built'] = list(echo[:used])
+                    case['p'] = {'fin': bool(g.fin), 'rsv1': bool(g.rsv1), 'rsv2': bool(g.rsv2), 'rsv3': bool(g.rsv3), 'opcode': int(g.opcode),
+                                 'masked': bool(g.masked), 'len': -1 if g.payload_length is None else int(g.payload_length),
+                                 'mask': list(g.mask or b''), 'data': list(g.data or b'')}
+                    echo = rest
+                except Exception as e:     # noqa
+                    case['exc'] = '%s: %s' % (type(e).__name__, str(e)[:80])
+                    echo = b''
+                cases.append(case)
+    return cases, pairs
+
+
 def run(chk):
     rnd = random.Random(chk.seed * 7919 + 16)
     cs = execute(cases(chk.tier, rnd))
     for c in cs:
         c.pop('reuse', None)
+    live_cases, live_pairs = live(chk.tier, rnd, {'case': len(cs) + 1, 'pair': 100000})
+    cs += live_cases
     # big frames first so that shards are balanced (items are dealt round-robin)
     order = sorted(cs, key=lambda c: -c['n'])
     results, rej = tlc.run_sharded('TraceWs', 'TraceWs.cfg', order, shards=16, timeout=900 if chk.tier == 'quick' else 3000)
@@ -131,6 +189,8 @@ def run(chk):
         c = byid[cid]
         sig = {'what': 'frame', 'clause': clause.strip('"').split(':')[0], 'len_class': 'lt126' if c['n'] < 126 else
                'lt65536' if c['n'] < 65536 else 'ge65536', 'masked': c['masked'], 'empty': c['n'] == 0}
+        if c.get('live'):
+            sig['through'] = 'web server echo'
         small = {k: v for k, v in c.items() if k not in ('built', 'p', 'rest')}
         small['built_head'] = c['built'][:16]
         chk.violation(sig, 'frame case %s: %s' % ({k: small[k] for k in ('fin', 'opcode', 'masked', 'n')}, clause), small)
@@ -139,7 +199,7 @@ def run(chk):
         chk.sample({k: (v if not isinstance(v, list) or len(v) < 24 else v[:24] + ['...(%d bytes)' % len(v)])
                     for k, v in c.items() if k != 'p'})
 
-    pairs = accept_pairs(chk.tier, rnd)
+    pairs = accept_pairs(chk.tier, rnd) + live_pairs
     results2, rej2 = tlc.run_sharded('TraceSha1', 'TraceSha1.cfg', pairs, shards=8, timeout=600)
     m2 = tlc.Merged(results2)
     chk.add_tlc('TraceSha1 (SHA-1 state machine, one round per transition)', m2)
@@ -153,11 +213,13 @@ def run(chk):
     chk.traces(len(pairs) - 1)
     chk.sample({'key': bytes(pairs[1]['key']).decode(), 'accept': bytes(pairs[1]['accept']).decode()})
     chk.cov['exhaustive'] = False
+    chk.cov['live_web_server'] = {'echoed_frames': len(live_cases), 'handshakes': len(live_pairs)}
     chk.cov['case_space'] = {'frames': len(cs), 'accept_keys': len(pairs) - 1,
                              'tier_rule': 'quick: all 512 flag x opcode x mask combinations at lengths 0,1,125,126,127; '
                                           'every length 0..130 with 6 sampled combinations; 65535..65540 sampled. '
                                           'thorough: full product 512 x (0..130), 65530..65540 x 12, up to 1 MiB'}
-    chk.assume('payloads are the position-dependent pattern Pat(n, salt) of WsCodec.tla (byte values cover 0..255)',
+    chk.assume('live part: frames reach the web server whole (one or several per segment); a frame cut across segments is outside the property',
+               'payloads are the position-dependent pattern Pat(n, salt) of WsCodec.tla (byte values cover 0..255)',
                'payload lengths above 1 MiB are not executed (TLC integers are 32 bit; the 64-bit length field is checked up to 2^31)')
 
 
